@@ -328,12 +328,21 @@ func Supervise(o SupOpts) int {
 	obs := map[string]int64{}
 	sets := map[string]map[string]bool{}
 	var samples []interface{}
+	extraDistinct := 0
 	for i := range all {
 		r := &all[i]
 		if r.NonTrivial {
 			for _, f := range r.Feat {
 				distinct[f] = true
 			}
+		}
+		if n, ok := r.Obs["executions"]; ok {
+			// a case that enumerates a whole sub-space reports how many executions it monitored
+			evals += int(n) - 1
+		}
+		if n, ok := r.Obs["distinct_nontrivial_executions"]; ok {
+			// enumerated tuples are distinct by construction; the monitor counted the non-trivial ones
+			extraDistinct += int(n)
 		}
 		for k, v := range r.Obs {
 			if strings.HasPrefix(k, "max:") {
@@ -361,7 +370,8 @@ func Supervise(o SupOpts) int {
 		setSizes["distinct:"+k] = len(s)
 	}
 	ev.Coverage["evaluations"] = evals
-	ev.Coverage["distinct_nontrivial"] = len(distinct)
+	ev.Coverage["distinct_nontrivial"] = len(distinct) + extraDistinct
+	ev.Coverage["distinct_feature_signatures"] = len(distinct)
 	ev.Coverage["rule"] = p.Rule
 	ev.Coverage["samples"] = samples
 	ev.Coverage["observed"] = obs
@@ -462,7 +472,7 @@ func Supervise(o SupOpts) int {
 		exit = 2
 	}
 	fmt.Printf("property=%s tier=%s seed=%d evaluations=%d distinct_nontrivial=%d violations=%d known=%d inconclusive=%d wall=%.1fs exit=%d\n",
-		o.ID, o.Tier, o.Seed, evals, len(distinct), nviol, len(knownSeen), len(inconcl), ev.WallS, exit)
+		o.ID, o.Tier, o.Seed, evals, len(distinct)+extraDistinct, nviol, len(knownSeen), len(inconcl), ev.WallS, exit)
 	return exit
 }
 
